@@ -96,8 +96,7 @@ def U32 : Nat := 4294967296
 
 mutual
 /-- what the public API can build and the archive format can carry: 32-bit indices, counts and
-    type codes, 8-bit operator codes, operands of the operand width — and no zero-length raw-data
-    default (finding `qf-rawdef-empty`: `SaveToArchive` drops it) -/
+    type codes, 8-bit operator codes, operands of the operand width -/
 def wf : Filter → Prop
   | .what lo hi => lo < U32 ∧ hi < U32
   | .valueExists _ idx tc => idx < U32 ∧ tc < U32
@@ -105,7 +104,7 @@ def wf : Filter → Prop
   | .childCount _ idx op mop val mask _ => idx < U32 ∧ op < 256 ∧ mop < 256 ∧ val.length = 4 ∧ mask.length = 4
   | .str _ idx op _ _ => idx < U32 ∧ op < 256
   | .nodeName _ idx op _ _ => idx < U32 ∧ op < 256
-  | .raw _ idx op tc _ dflt => idx < U32 ∧ op < 256 ∧ tc < U32 ∧ dflt ≠ some []
+  | .raw _ idx op tc _ _ => idx < U32 ∧ op < 256 ∧ tc < U32
   | .msgAny _ idx _ => idx < U32
   | .msgKid _ idx kid _ => idx < U32 ∧ wf kid
   | .minMatch n kids => n < U32 ∧ wfKids kids
